@@ -4,8 +4,11 @@ import glob, json, os
 ROOT = os.path.dirname(os.path.dirname(os.path.abspath(__file__)))
 ids = [json.loads(l)["id"] for l in open(os.path.join(ROOT, "properties.jsonl"))]
 claimed = {}
+enabled = open(os.path.join(ROOT, "props", "ENABLED")).read().split()
 for f in sorted(glob.glob(os.path.join(ROOT, "props", "C*.json"))):
-    p = json.load(open(f)); claimed[p["id"]] = p
+    p = json.load(open(f))
+    if p["id"] in enabled:   # props/ENABLED lists the checks that are complete and registered
+        claimed[p["id"]] = p
 na = json.load(open(os.path.join(ROOT, "props", "not_applicable.json")))
 checks = []
 for i in ids:
